@@ -41,6 +41,10 @@ CLAIMED = {
          "Seeded deterministic simulation with tainted inputs (regular alphabet): every string entering through a channel the library declares safe carries a unique token; observed locally and after every hop between knowing processes; invariant: every safe token (not under a Mark reference), every layer's type name and the innermost function of every captured stack occurs in the Sentry event/extras or GetAllSafeDetails. Sampling, not proof.",
          "5/C12", "trusted: the channel table (constant messages, format strings, Safe() arguments, telemetry keys, domains, issue links, tag keys are 'declared safe'; Op/Net/syscall names and user SafeDetailers are neutral); one known finding (Safe() tag values in transferred multi-cause branches) is listed in known_findings.json",
          "deterministic simulation: taint-token tracking with per-delivery retention invariants"),
+ "C07": ("exploration",
+         "Seeded deterministic differential simulation: a tree containing barriers / secondary errors / Mark references and its twin (every hidden sub-tree of a barrier, secondary error or error argument replaced by a bare error with the same text) travel the same route over knowing and unknowing processes; per delivery the visible chain, root cause, every accessor, HasType/As for every hidden type, the nodes shown to If and Is/IsAny against every hidden layer and sentinel must agree; direct checks: Handled keeps the text, *WithMessage replaces it, Mark adds no accessor result and matches no inner layer of its reference, the hidden error stays visible in %+v locally and after transfer. Sampling, not proof.",
+         "5/C07", "trusted: the twin construction; at processes not knowing barrierErr texts are compared modulo marker characters and Is is not compared (recorded C04 finding); accessors that are outermost-layer tests or defined through Is are excluded from the Mark check",
+         "deterministic simulation: differential twin runs through the simulated cluster with per-delivery hiding invariants"),
 }
 
 NOT_APPLICABLE = {
